@@ -42,6 +42,28 @@ def gen(ctx, size):
         # split updates
         k = rng.randrange(len(m) + 1)
         ctx.add('sc.fromhash', hx(m[:k]), hx(m[k:]), expect=E(h), cls='hash')
+    # directed: every unary operator on every corner value, every binary operator on a core corner matrix
+    core_vals = [0, 1, 2, L - 1, L - 2, (L - 1) // 2, (L + 1) // 2, (1 << 252) - 1, (1 << 252), (2**256 - 1) % L, (1 << 128)]
+    for c, v in vals._SCORNERS + vals._DIGITS:
+        v %= L
+        ctx.add('sc.neg', sc(v), expect=E(-v), cls=c)
+        ctx.add('sc.negref', sc(v), expect=E(-v), cls=c)
+        ctx.add('sc.mul', sc(v), sc(v), expect=E(v * v), cls=c)
+        ctx.add('sc.add', sc(v), sc(v), expect=E(2 * v), cls=c)
+        ctx.add('sc.sub', sc(0), sc(v), expect=E(-v), cls=c)
+    for a in core_vals:
+        for b in core_vals:
+            ctx.add('sc.add', sc(a), sc(b), expect=E(a + b), cls='corner-matrix')
+            ctx.add('sc.sub', sc(a), sc(b), expect=E(a - b), cls='corner-matrix')
+            ctx.add('sc.mul', sc(a), sc(b), expect=E(a * b), cls='corner-matrix')
+            ctx.add('sc.eq', sc(a), sc(b), expect=['T' if a == b else 'F'] * 2, cls='corner-matrix')
+    # results of operators must themselves be canonical inputs: feed them back through from_canonical_bytes
+    for a in core_vals:
+        r = ctx.add('sc.neg', sc(a), expect=E(-a), cls='canonical-result')
+        ctx.add('sc.canon', ctx.ref(r, 0), expect=E(-a), cls='canonical-result')
+        r = ctx.add('sc.sub', sc(a), sc(a), expect=E(0), cls='canonical-result')
+        ctx.add('sc.canon', ctx.ref(r, 0), expect=E(0), cls='canonical-result')
+        ctx.add('sc.eq', ctx.ref(r, 0).replace('$', 'c$'), sc(0), expect=['T', 'T'], cls='canonical-result')
     # binary operators
     def pair():
         r = rng.random()
@@ -65,6 +87,12 @@ def gen(ctx, size):
             ctx.add('sc.eq', sc(a), sc(b), expect=['T' if a == b else 'F'] * 2)
             ctx.add('sc.csel', sc(a), sc(b), 'T', expect=E(b))
             ctx.add('sc.csel', sc(a), sc(b), 'F', expect=E(a))
+            ctx.add('sc.cassign', sc(a), sc(b), 'T', expect=E(b))
+            ctx.add('sc.cassign', sc(a), sc(b), 'F', expect=E(a))
+            ctx.add('sc.cswap', sc(a), sc(b), 'T', expect=E(b) + E(a))
+            ctx.add('sc.cswap', sc(a), sc(b), 'F', expect=E(a) + E(b))
+            ctx.add('sc.cneg', sc(a), 'T', expect=E(-a))
+            ctx.add('sc.cneg', sc(a), 'F', expect=E(a))
         ctx.add('sc.neg', sc(a), expect=E(-a), cls=c1)
         if rng.random() < 0.3:
             ctx.add('sc.negref', sc(a), expect=E(-a), cls=c1)
